@@ -10,7 +10,10 @@
                           `subs_ignores_foreign_keys`, `subs_fuse_sound`, `subs_fuse_normalize_sound` (+ witness),
                           `interpret_head_sound` (SubstituteInterpretation on HEAD), `interpret_new_sound`,
                           `interpret_old_witness` (86bd40d), `interpret_fix86_witness` (64e4215).
-  Props/C04/Classes.lean  per-class eager_subs index arithmetic: Slice (incl. Slice-into-Slice), Stack, Cat.
+  Props/C04/Classes.lean  per-class eager_subs index arithmetic: Slice (incl. Slice-into-Slice, 37c3acd), Stack with a
+                          slice = python list slicing, Cat (number: `locate`; slice: `catPStart_spec`, `catSlice_sem`,
+                          f0eee47) with the pre-fix witnesses.
 -/
 import FunsorVerif.Props.C04.NT
 import FunsorVerif.Props.C04.Subst
+import FunsorVerif.Props.C04.Classes
